@@ -775,7 +775,13 @@ impl<'a, 's> ProcedureAnalysis<'a, 's> {
                 | Factor::Unknown(_) => Vec::new(),
             },
             Expression::Unary(op, operand, _) => match op {
-                Op::BitNot | Op::Add | Op::Sub => self.eval_expr_bits(operand, requested),
+                Op::BitNot | Op::Add => self.eval_expr_bits(operand, requested),
+                // Two's complement negation carries: result bit i depends on
+                // operand bits 0..=i, not only on bit i.
+                Op::Sub => match PackedSpan::new(0, requested.end()) {
+                    Some(span) => self.eval_expr_bits(operand, span),
+                    None => self.eval_expr(operand),
+                },
                 _ => self.eval_expr(operand),
             },
             Expression::Binary(left, op, right, _) => match op {
